@@ -274,6 +274,18 @@ static void serial_sweep() {
 		SBuf b2; memset(&b2, 0xC3, sizeof b2); m2.save(b2.buf); ++me().cases;
 		if (memcmp(&b2.buf, &bufs[a].buf, sizeof b2.buf) || !(b2.buf == bufs[a].buf)) violation("buffer-not-canonical", rp, "N=%d: two machines in activity %d serialize differently", N, a);
 	}
+	// a buffer that is an object of its own, with nothing of ours next to it (exact-size heap block: an access past its last byte is
+	// an access outside any object, which the sanitizer builds report): save into it, load from it
+	for (int s = 0; s < NA; ++s) {
+		void* raw = malloc(sizeof(Inst::SerialBuffer)); if (!raw) break; memset(raw, 0xC3, sizeof(Inst::SerialBuffer));
+		Inst::SerialBuffer* hb = new (raw) Inst::SerialBuffer;
+		memcpy(g_store[0], snaps[s], sizeof(Inst)); inst(0)->save(*hb); ++me().cases;
+		if (memcmp(hb, &bufs[s].buf, sizeof(Inst::SerialBuffer))) violation("buffer-not-canonical", rp, "N=%d: activity %d serializes differently into a stand-alone buffer", N, s);
+		memcpy(g_store[1], snaps[(s + 1) % NA], sizeof(Inst)); g_n = 0; inst(1)->load(*hb); ++me().cases;
+		const int got = inst(1)->activeStateId() == ffsm2::INVALID_STATE_ID ? N : inst(1)->activeStateId();
+		if (got != s) violation("load-activity", rp, "N=%d: loading activity %d from a stand-alone buffer ends in %d", N, s, got);
+		free(raw);
+	}
 	// loaders: every (saver activity, loader activity) pair
 	for (int l = 0; l < NA; ++l) for (int s = 0; s < NA; ++s) {
 		memcpy(g_store[0], snaps[l], sizeof(Inst)); Inst& m = *inst(0);
